@@ -1,10 +1,14 @@
-(* C11 — exact-arithmetic skeletons of the two other bracket methods (definitions only; NOT tied by a
-   correspondence: log/exp and sqrt have no rational model — the bracket clause S5 is evaluated on the
-   implementation by the checker; these models support the _partial theorems only).
+(* C11 — exact-arithmetic model of the Ridler-Calvard iteration (definitions only).  The code's
+   pre-processing (clip to max/256, log, stretch to [0,1]) and post-processing (exp) use log/exp, which have
+   no rational model: the harness applies them with NumPy and hands the STRETCHED data (exact rationals of
+   the doubles, scaled to integers by a common power of two) to [rc_model]; the model does the two phases the
+   bracket depends on — the initial value otsu(im) (Model.OtsuQ) and the fixed-point loop — and is compared
+   with get_ridler_calvard_threshold through the (monotone) exp transfer.
    Ridler-Calvard: the fixed-point iteration  new = mean(mean(im[im < t]), mean(im[im >= t]))  on the
    log-stretched data, as written (None = NaN: an empty class; out of fuel = None).
    MCT: the final formula  min + my_bin * (max - min) / (bins - 1). *)
 From Coq Require Import ZArith QArith Qabs List Bool.
+From Centro Require Import Base.Sx Base.ThresholdNum Model.OtsuQ.
 Import ListNotations.
 Open Scope Q_scope.
 
@@ -30,3 +34,26 @@ Fixpoint rc_iter (fuel : nat) (delta : Q) (im : list Q) (pre new : Q) : option Q
 
 Definition mct_value (vmin vmax : Q) (bins my_bin : Z) : Q :=
   vmin + inject_Z my_bin * (vmax - vmin) / inject_Z (bins - 1).
+
+(* the iterates, for the harness (conditioning: distance of every iterate to the nearest data value) *)
+Fixpoint rc_iterates (fuel : nat) (delta : Q) (im : list Q) (pre new : Q) : list Q :=
+  new :: (if Qle_bool (Qabs (pre - new)) delta then [] else
+          match fuel with
+          | O => []
+          | S f => match rc_step im new with
+                   | Some t => rc_iterates f delta im new t
+                   | None => []
+                   end
+          end).
+(* pre_thresh = 0; new_thresh = otsu(im); while abs(pre_thresh - new_thresh) > delta: … ; data = the stretched
+   image as integers (common scale); [fuel] bounds the number of passes of the unbounded while-loop (None = not
+   converged within fuel, or an empty class = NaN in the code) *)
+Definition rc_model (fuel : nat) (delta : Q) (data : list Z) : option Q :=
+  rc_iter fuel delta (map inject_Z data) 0 (otsu (map Some data)).
+(* arg: (data (delta_num delta_den) fuel) -> (result? iterates) *)
+Definition entry_rc (x : sx) : sx :=
+  let data := as_Zs (arg 0 x) in
+  let delta := as_Q (arg 1 x) in
+  let fuel := as_nat (arg 2 x) in
+  L [match rc_model fuel delta data with Some t => L [of_Q (Qred t)] | None => L [] end;
+     of_Qs (map Qred (rc_iterates fuel delta (map inject_Z data) 0 (otsu (map Some data))))].
